@@ -390,6 +390,23 @@ def install():
     _installed = True
 
 
+def uninstall():
+    """Give pyrtma.manager its real socket/select/random/time back (the real-TCP tier runs in a forked shard
+    whose parent may already have used the simulator, e.g. for the regression replays)."""
+    global _installed
+    import random as _random
+    import select as _select
+    import time as _time
+
+    import pyrtma.manager as mm
+
+    mm.socket = _real_socket
+    mm.select = _select
+    mm.random = _random
+    mm.time = _time
+    _installed = False
+
+
 class Conn:
     """Harness-side handle of one client connection."""
 
